@@ -68,7 +68,7 @@ class Handshake:
         self.extensions: Optional[List[str]] = None
         self.key: Optional[bytes] = None
         self.subprotocols: Optional[List[str]] = None
-        self.upgrade: Optional[bytes] = None
+        self.upgrade_tokens: Optional[List[str]] = None
         self.version: Optional[bytes] = None
         self.decodable = True
         for name, value in headers:
@@ -88,7 +88,7 @@ class Handshake:
                 elif name == b"sec-websocket-version":
                     self.version = value
                 elif name == b"upgrade":
-                    self.upgrade = value
+                    self.upgrade_tokens = (self.upgrade_tokens or []) + split_comma_header(value)
             except UnicodeDecodeError:
                 self.decodable = False  # Token lists must be ASCII
 
@@ -104,7 +104,9 @@ class Handshake:
                 token.lower() == "upgrade" for token in self.connection_tokens
             ):
                 return False
-            if self.upgrade.lower() != b"websocket":
+            if self.upgrade_tokens is None or not any(
+                token.lower() == "websocket" for token in self.upgrade_tokens
+            ):
                 return False
 
         if self.version != WEBSOCKET_VERSION:
